@@ -11,8 +11,9 @@ from ipaddress import ip_address, ip_network
 from select import select
 
 import xfrm
+from configuration import ConfigurationNotFound
 from ikesa import IkeSa
-from message import (Message, TrafficSelector)
+from message import (IkeSaError, Message, TrafficSelector)
 
 __author__ = 'Alejandro Perez-Mendez <alejandro.perez.mendez@gmail.com>'
 
@@ -44,11 +45,19 @@ class IkeSaController:
         return None
 
     def dispatch_message(self, data, my_addr, peer_addr):
-        header = Message.parse(data, header_only=True)
+        try:
+            header = Message.parse(data, header_only=True)
+        except IkeSaError as ex:
+            logging.warning(f'Received a datagram that is not an IKE message from {peer_addr}: {ex}. Omitting.')
+            return None
         # if IKE_SA_INIT request, then a new IkeSa must be created
         if header.exchange_type == Message.Exchange.IKE_SA_INIT and header.is_request:
             # look for matching configuration
-            ike_conf = self.configuration.get_ike_configuration(ip_address(my_addr), ip_address(peer_addr))
+            try:
+                ike_conf = self.configuration.get_ike_configuration(ip_address(my_addr), ip_address(peer_addr))
+            except ConfigurationNotFound as ex:
+                logging.warning(f'Received IKE_SA_INIT request from an unknown peer: {ex}. Omitting.')
+                return None
             ike_sa = IkeSa(is_initiator=False, peer_spi=header.spi_i, configuration=ike_conf,
                            my_addr=ip_address(my_addr), peer_addr=ip_address(peer_addr))
             self.ike_sas.append(ike_sa)
@@ -68,7 +77,14 @@ class IkeSaController:
         # generate the reply (if any)
         rekeyed_states = (IkeSa.State.REKEYED, IkeSa.State.DEL_AFTER_REKEY_IKE_SA_REQ_SENT)
         was_rekeyed = ike_sa.state in rekeyed_states
-        reply = ike_sa.process_message(data)
+        try:
+            reply = ike_sa.process_message(data)
+        except IkeSaError as ex:
+            # the datagram could not even be parsed (bad checksum, malformed payloads): it must not have any effect
+            logging.warning(f'IKE_SA: {ike_sa}. Received an invalid message from {peer_addr}: {ex}. Omitting.')
+            if ike_sa.state == IkeSa.State.INITIAL:
+                self.ike_sas.remove(ike_sa)
+            return None
 
         # if rekeyed by this message (and not by an earlier one), add the new IkeSa
         if ike_sa.state in rekeyed_states and not was_rekeyed:
